@@ -3,13 +3,17 @@
 package vgirpc
 
 import (
+	"bytes"
 	"context"
 	"fmt"
 	"net/http"
+	"net/http/httptest"
+	"reflect"
 	"sort"
 	"strings"
 	"testing"
 	"time"
+	"unsafe"
 
 	"github.com/Query-farm/vgi-rpc-go/vgirpc/internal/verif/venum"
 	"github.com/Query-farm/vgi-rpc-go/vgirpc/internal/verif/vsched"
@@ -122,6 +126,60 @@ type vfC29Resp struct {
 	pan     any
 }
 
+// vfC29LockHeld reads the per-session lock of a registry entry without naming its type: a
+// mutex-like value answering VerifLocked (the shim's Mutex), or a one-slot channel (held = full).
+// known=false when the representation is neither, in which case the quiescence clause is skipped.
+func vfC29LockHeld(e any) (held, known bool) {
+	v := reflect.ValueOf(e)
+	for v.Kind() == reflect.Pointer {
+		v = v.Elem()
+	}
+	if v.Kind() != reflect.Struct {
+		return false, false
+	}
+	f := v.FieldByName("lock")
+	if !f.IsValid() {
+		return false, false
+	}
+	if f.Kind() == reflect.Chan {
+		return f.Len() > 0, true
+	}
+	if !f.CanAddr() {
+		return false, false
+	}
+	p := reflect.NewAt(f.Type(), unsafe.Pointer(f.UnsafeAddr())).Interface()
+	if l, ok := p.(interface{ VerifLocked() bool }); ok {
+		return l.VerifLocked(), true
+	}
+	return false, false
+}
+
+// callGone is call() for a client that has already gone away: the request context is cancelled
+// before the request reaches the server.
+func (w *vfC29World) callGone(worker int, method string, x int64, caller, token string) vfC29Resp {
+	req := httptest.NewRequest("POST", "/"+method, bytes.NewReader(vfXReq(method, x)))
+	req.Header.Set("Content-Type", arrowContentType)
+	req.Header.Set("X-Id", caller)
+	req.Header.Set("VGI-Session", token)
+	ctx, cancel := context.WithCancel(req.Context())
+	cancel()
+	req = req.WithContext(ctx)
+	rec := httptest.NewRecorder()
+	var pan any
+	func() {
+		defer func() {
+			if rv := recover(); rv != nil {
+				pan = rv
+			}
+		}()
+		w.w[worker].ServeHTTP(rec, req)
+	}()
+	if pan != nil && vsched.IsAbort(pan) {
+		panic(pan)
+	}
+	return vfC29ParseResp(rec, pan)
+}
+
 func (w *vfC29World) call(worker int, method string, x int64, caller, token string, accept bool) vfC29Resp {
 	hdr := []string{}
 	if caller != "" {
@@ -137,6 +195,10 @@ func (w *vfC29World) call(worker int, method string, x int64, caller, token stri
 	if pan != nil && vsched.IsAbort(pan) {
 		panic(pan)
 	}
+	return vfC29ParseResp(rec, pan)
+}
+
+func vfC29ParseResp(rec *httptest.ResponseRecorder, pan any) vfC29Resp {
 	r := vfC29Resp{status: rec.Code, pan: pan, token: rec.Header().Get("VGI-Session"), closed: rec.Header().Get("VGI-Session-Close") == "true"}
 	st, _, err := vfParseStreams(rec.Body.Bytes())
 	if err != nil {
@@ -164,13 +226,27 @@ type vfC29Op struct {
 func TestVerif_C29(t *testing.T) {
 	venum.Begin("C29")
 	defer venum.Finish(t)
-	ops := []string{"work", "work2", "close", "delete", "work-as-bob", "work-on-w2", "drain-open", "shutdown", "expire", "open-panic", "open", "delete-as-bob"}
+	ops := []string{"work", "work2", "close", "delete", "work-as-bob", "work-on-w2", "drain-open", "shutdown", "expire", "open-panic", "open", "delete-as-bob", "work-gone"}
 	nThreads := venum.QT(2, 3)
 	venum.Explore(t, venum.Cfg{Name: "sticky-schedules", PreemptBound: venum.QT(2, 2), Shardable: true, CheckDeterminism: true}, func(x *venum.X) {
 		chosen := make([]string, nThreads)
 		for i := range chosen {
 			chosen[i] = ops[x.Choose(len(ops), fmt.Sprintf("op%d", i))]
 		}
+		vfC29Scenario(x, chosen)
+	})
+	// Three same-session requests, the middle one from a client that has gone away while the
+	// first may still be inside its handler (the quick tier's main space has two threads only).
+	first := []string{"work", "close", "delete"}
+	third := []string{"work2", "close", "delete"}
+	venum.Explore(t, venum.Cfg{Name: "abandoned-request-between-two", PreemptBound: 2, Shardable: true, CheckDeterminism: true}, func(x *venum.X) {
+		vfC29Scenario(x, []string{first[x.Choose(len(first), "first")], "work-gone", third[x.Choose(len(third), "third")]})
+	})
+}
+
+func vfC29Scenario(x *venum.X, chosen []string) {
+	{
+		nThreads := len(chosen)
 		nShutdown := 0
 		for _, c := range chosen {
 			if c == "shutdown" {
@@ -219,6 +295,8 @@ func TestVerif_C29(t *testing.T) {
 							panic(pan)
 						}
 						rec.resp = vfC29Resp{status: r.Code, pan: pan, closed: r.Header().Get("VGI-Session-Close") == "true"}
+					case "work-gone":
+						rec.resp = w.callGone(0, "work", 1, "alice", token)
 					case "work-as-bob":
 						rec.resp = w.call(0, "work", 1, "bob", token, false)
 					case "work-on-w2":
@@ -253,7 +331,9 @@ func TestVerif_C29(t *testing.T) {
 			live := map[any]bool{}
 			for _, e := range reg.entries {
 				live[e.state] = true
-				if e.lock.VerifLocked() {
+				if held, known := vfC29LockHeld(e); !known {
+					x.Note("session lock representation not recognised: lock-left-held clause skipped")
+				} else if held {
 					locksHeld = append(locksHeld, fmt.Sprintf("s%d", e.state.(*vfC29Sess).ID))
 				}
 			}
@@ -344,5 +424,5 @@ func TestVerif_C29(t *testing.T) {
 		sort.Strings(locksHeld)
 		sort.Strings(outs)
 		x.Outcome("%v", outs)
-	})
+	}
 }
